@@ -84,6 +84,23 @@ impl Prop for C06 {
     fn strategy(&self, tier: Tier) -> BoxedStrategy<Case> {
         case_strategy(&profile(tier))
     }
+    fn extra(&self, ctx: &Ctx, shard: usize, rep: &mut crate::runner::ShardReport) {
+        // The same property under a partially ordered vote type (two shards share the work):
+        // an incomparable vote is refused and must leave no trace either.
+        if shard > 1 {
+            return;
+        }
+        let cases = if ctx.tier == Tier::Quick { 150 } else { 3000 };
+        match crate::pvote::campaign(crate::ops::mix(ctx.seed, shard as u64), cases) {
+            Ok((n, refused, incomparable)) => {
+                rep.evaluations += n;
+                *rep.labels.entry("pvote_histories".into()).or_insert(0) += n;
+                *rep.labels.entry("pvote_refused_votes".into()).or_insert(0) += refused;
+                *rep.labels.entry("pvote_refused_incomparable_votes".into()).or_insert(0) += incomparable;
+            }
+            Err(f) => rep.violations.push(crate::runner::Violation { key: f.key, msg: f.msg, case: serde_json::to_value(crate::ops::sample_case()).unwrap(), origin: "partially ordered votes".into() }),
+        }
+    }
     fn run_case(&self, case: &Case, _ctx: &Ctx) -> Result<CaseInfo, Fail> {
         let mut info = CaseInfo::default();
         let limited = limited_cache(case);
